@@ -359,6 +359,25 @@ func runLockToken(c *core.Ctx) {
 		}
 		c.Check(ok, key, w.Pos, "collector %s waits for the holders of %s with the token held and the repository mutex not yet taken (held: %v)", w.Func, t, e.HeldNames(w.Held))
 	}
+	// a function that takes the token with a plain receive is a collector: it must wait for the holders
+	c.SetTags("exclusion")
+	seenC := map[string]bool{}
+	for _, op := range e.TokenOps {
+		if op.InSelect || seenC[op.Func] {
+			continue
+		}
+		seenC[op.Func] = true
+		waits := false
+		for _, w := range e.Waits {
+			if w.Func == op.Func && typeOfClass(e.Classes[w.Class].Name) == typeOfClass(e.Classes[op.Class].Name) {
+				waits = true
+			}
+		}
+		c.Check(waits, "collector-waits:"+kn(op.Func), op.Pos, "%s takes the repository token and waits for the requests that hold the repository before it works on it: %v — otherwise the collection overlaps in-flight requests (a blob uploaded by a request that still holds the repository can be swept under it)", op.Func, waits)
+		if !waits {
+			collector[op.Func] = true
+		}
+	}
 	seenT := map[string]bool{}
 	for _, op := range e.TokenOps {
 		key := fmt.Sprintf("take:%s|%s", e.Classes[op.Class].Name, kn(op.Func))
